@@ -467,21 +467,24 @@ def _lift_position(body, sig, needle, name, elem, extra, clauses, pred_clauses, 
 
 
 def _mapdefault(body, needle, variants, fname):
-    """Rule 18. Returns (new_body, [info])."""
-    rx = re.compile(r'\s*'.join(re.escape(tok) for tok in needle.split()))
-    start = None
-    for j, d in rc.code_positions(body):
-        if rx.match(body, j) and (j == 0 or not (body[j - 1].isalnum() or body[j - 1] == '_')):
-            start = j; break
-    if start is None:
-        raise CutError('fn %s: statement for mapdefault not found: %s' % (fname, needle))
-    depth, end = 0, None
-    for k, d in rc.code_positions(body, start):
-        c = body[k]
-        if c in '([{': depth += 1
-        elif c in ')]}': depth -= 1
-        elif c == ';' and depth == 0:
-            end = k; break
+    """Rule 18. Returns (new_body, [info]).  needle `*` = the whole body (occurrences counted in source order)."""
+    if needle.strip() == '*':
+        start, end = 0, len(body) - 1
+    else:
+        rx = re.compile(r'\s*'.join(re.escape(tok) for tok in needle.split()))
+        start = None
+        for j, d in rc.code_positions(body):
+            if rx.match(body, j) and (j == 0 or not (body[j - 1].isalnum() or body[j - 1] == '_')):
+                start = j; break
+        if start is None:
+            raise CutError('fn %s: statement for mapdefault not found: %s' % (fname, needle))
+        depth, end = 0, None
+        for k, d in rc.code_positions(body, start):
+            c = body[k]
+            if c in '([{': depth += 1
+            elif c in ')]}': depth -= 1
+            elif c == ';' and depth == 0:
+                end = k; break
     stmt = body[start:end + 1]
     infos = []
     for v in variants:
